@@ -24,8 +24,8 @@ fn exhaustive_n(tier: Tier) -> u32 {
 
 fn n_random(tier: Tier) -> u64 {
     match tier {
-        Tier::Quick => 4_000,
-        Tier::Thorough => 150_000,
+        Tier::Quick => 60_000,
+        Tier::Thorough => 1_500_000,
     }
 }
 
